@@ -51,6 +51,8 @@ def run_check(prop: str, tier: str, root: str, known=None, evidence_path=None,
     hygiene.run_options(ctx, prop)
     hygiene.run_tuple_protocol(ctx, prop)
     hygiene.run_method_truthiness(ctx, prop)
+    hygiene.run_sticky_flags(ctx, prop)
+    hygiene.run_class_alias_mutation(ctx, prop)
     extra = {}
     if tier == 'thorough' and hasattr(mod, 'run_thorough'):
         mod.run_thorough(ctx)
